@@ -428,9 +428,12 @@ fn judge_inner(files: &[(String, String)], wasm: bool, family: &str, w: &mut Wor
 									ok = false;
 									w.result.violation("public-function-not-externally-visible", size, &desc, || format!("`{name}` (flags {flags}) is defined as: {line}"));
 								}
-								if !must_be_visible && !hidden && !flags.contains("External")
+								if !must_be_visible && !hidden
 								{
-									w.result.soft("private function with external linkage", || line.to_string());
+									// a function that is not `pub` (extern or not) is private to its
+									// module: two modules may each have one of the same name
+									ok = false;
+									w.result.violation(&format!("private-function-externally-visible:{}", if flags.contains("External") { "extern" } else { "plain" }), size, &desc, || format!("`{name}` (flags {flags}) is not `pub`, but is defined as: {line}"));
 								}
 							}
 						}
